@@ -332,18 +332,20 @@ Proof. exact tm_make_shape. Qed.
    that FuncProto.run_query runs for ClsCircuit on circ_rep c, i.e. the function the query theorems above are about.
    The fuel parameters (Python has none) are those of the model's evaluators, as in C02.
 
-   bool_valued c = no_undefined c /\ (fuel_suffices c \/ ~ has_self_loop c): the generated code carries the
-   GateStates that evaluate returns (tp.cast is the identity) while the hand model reports an Undefined as
-   GateStateError, so the two are compared where no Undefined comes out of Boolean inputs; and T10's evaluators equal
-   the model's unless a gate is its own operand.  The last two conjuncts: it holds whenever the circuit computes a
-   function (the hypothesis `circuit_computes` inside represented3) and for every well-formed circuit.
-   index_of_output has no counterpart in the hand model: it is specified directly (first index of the label). *)
+   The generated code carries the GateStates that evaluate returns (tp.cast is the identity) while the hand model
+   turns them into bools and would report an Undefined as GateStateError; the last two conjuncts show that no
+   Undefined comes out of Boolean inputs, for any circuit, so the equalities need no hypothesis about values.
+   fuel_ok c = fuel_suffices c \/ ~ has_self_loop c is the condition under which T10's evaluators equal the model's
+   (the model's evaluators do not run out of fuel on Boolean vectors, or no gate is its own operand); it holds
+   whenever the circuit computes a function (the hypothesis `circuit_computes` inside represented3) and for every
+   well-formed circuit.  index_of_output has no counterpart in the hand model: it is specified directly (first
+   index of the label). *)
 Theorem C12_circuit_protocol_regenerated :
   (forall c, gen_output_size c = r_m (circ_rep c)) /\
   (forall c l i, gen_index_of_output c l = Ok i <->
                  nth_error (outputs c) i = Some l /\ forall j, j < i -> nth_error (outputs c) j <> Some l) /\
   (forall c l, ~ In l (outputs c) -> gen_index_of_output c l = Err GateDoesntExistError) /\
-  (forall c, bool_valued c ->
+  (forall c, fuel_ok c ->
      gen_is_constant outputs_fuel outputs_fuel c = g_is_constant (circ_rep c) /\
      (forall j : nat, gen_is_constant_at at_fuel at_fuel c (Z.of_nat j) = g_is_constant_at (circ_rep c) j) /\
      (forall inverse, gen_is_monotone outputs_fuel c inverse = circ_is_monotone (circ_rep c) inverse) /\
@@ -364,14 +366,16 @@ Theorem C12_circuit_protocol_regenerated :
      (forall outs : list nat,
         gen_find_negations_to_make_symmetric outputs_fuel outputs_fuel c (map Z.of_nat outs)
         = g_find_negations (circ_rep c) outs)) /\
-  (forall c f n m, circuit_computes c f n m -> bool_valued c) /\
-  (forall c, WF c -> bool_valued c).
+  (forall c f n m, circuit_computes c f n m -> fuel_ok c) /\
+  (forall c, WF c -> fuel_ok c) /\
+  (forall c (x : bvec) vs, evaluate c (map inj x) = Ok vs -> ~ In U vs) /\
+  (forall c (x : bvec) j, evaluate_at c (map inj x) j <> Ok U).
 Proof. exact circuit_protocol_regenerated. Qed.
 
 (* outside the side condition T10's corner shows through: a gate that is its own operand makes the source raise
    KeyError where the model's evaluator runs out of fuel (no Boolean function is computed either way) *)
 Example C12_circuit_protocol_corner :
-  ~ bool_valued self_loop_circuit /\
+  ~ fuel_ok self_loop_circuit /\
   gen_is_constant outputs_fuel outputs_fuel self_loop_circuit = Err PyKeyError /\
   g_is_constant (circ_rep self_loop_circuit) = Err OutOfFuel.
 Proof. exact circuit_protocol_corner. Qed.
